@@ -307,7 +307,53 @@ def rule_r8(ctx):
         ctx.r.violation(rid, key_of(f, None, "path-source"), "PATH_INFO does not derive from request.path", f.loc())
 
 
-RULES = [rule_r1, rule_r2, rule_r3, rule_r4, rule_r5, rule_r7, rule_r8]
+def rule_r9(ctx):
+    rid = "C07.R9"
+    ctx.r.rule(rid, "url_prefix split on a segment boundary: the prefix is removed only from a path that equals it or starts with url_prefix + '/' (PATH_INFO stays empty or slash-led)")
+    p = ctx.p
+    f = p.func("task.WSGITask.get_environment")
+    g = cfg_of(f)
+    cuts = [n for n in g.nodes if n.kind == "stmt" and isinstance(n.ast, ast.Assign) and dotted(n.ast.targets[0]) == "path" and isinstance(n.ast.value, ast.Subscript)
+            and dotted(n.ast.value.value) == "path" and isinstance(n.ast.value.slice, ast.Slice) and "len(url_prefix)" in norm(n.ast.value.slice)]
+    if not cuts:
+        ctx.r.violation(rid, key_of(f, None, "no-prefix-cut"), "get_environment no longer removes url_prefix from the path", f.loc())
+        return
+    for n in cuts:
+        sl = n.ast.value.slice
+        if not (sl.upper is None and norm(sl.lower) == "len(url_prefix)"):
+            ctx.r.violation(rid, key_of(f, None, "prefix-cut-slice"), "the prefix is removed by %s (expected path[len(url_prefix):])" % norm(n.ast.value), f.loc(n.ast))
+            continue
+        ok = False
+        for (t, pol) in guards_of(g, n):
+            if pol and isinstance(t, ast.Call) and isinstance(t.func, ast.Attribute) and t.func.attr == "startswith" and dotted(t.func.value) == "path" and t.args:
+                a = t.args[0]
+                txt = norm(a).replace(" ", "")
+                if txt in ("url_prefix+'/'",):
+                    ok = True
+                elif isinstance(a, ast.Name):
+                    d = [m for m in walk_own(f.node) if isinstance(m, ast.Assign) and dotted(m.targets[0]) == a.id]
+                    if d and norm(d[0].value).replace(" ", "") == "url_prefix+'/'":
+                        ok = True
+        if ok:
+            ctx.r.ok(rid, "prefix removed only when the path starts with url_prefix + '/'", f.loc(n.ast))
+        else:
+            ctx.r.violation(rid, key_of(f, None, "prefix-not-on-boundary"),
+                            "url_prefix is cut off a path that merely starts with the same characters (not on a '/' boundary): with url_prefix=/app, /application yields PATH_INFO 'lication'", f.loc(n.ast))
+    eq = [n for n in g.nodes if n.kind == "stmt" and isinstance(n.ast, ast.Assign) and dotted(n.ast.targets[0]) == "path" and isinstance(n.ast.value, ast.Constant) and n.ast.value.value == ""]
+    for n in eq:
+        if any(pol and isinstance(t, ast.Compare) and isinstance(t.ops[0], ast.Eq) and {norm(t.left), norm(t.comparators[0])} == {"path", "url_prefix"} for (t, pol) in guards_of(g, n)):
+            ctx.r.ok(rid, "PATH_INFO is empty exactly when the path equals the prefix", f.loc(n.ast))
+        else:
+            ctx.r.violation(rid, key_of(f, None, "empty-path-guard"), "PATH_INFO is emptied without the path being equal to url_prefix", f.loc(n.ast))
+    # leading slashes collapsed before the comparison
+    norml = [n for n in g.nodes if n.kind == "stmt" and isinstance(n.ast, ast.Assign) and dotted(n.ast.targets[0]) == "path" and norm(n.ast.value).replace('"', "'") == "'/' + path.lstrip('/')"]
+    if norml and all(norml[0].id not in g.reach(c) and c.id in g.reach(norml[0]) for c in cuts):
+        ctx.r.ok(rid, "leading slashes are collapsed to one before the prefix is compared", f.loc(norml[0].ast))
+    else:
+        ctx.r.violation(rid, key_of(f, None, "slash-normalisation"), "leading slashes are not collapsed before the url_prefix comparison", f.loc())
+
+
+RULES = [rule_r1, rule_r2, rule_r3, rule_r4, rule_r5, rule_r7, rule_r8, rule_r9]
 
 from ..selftest import M, T, V  # noqa: E402
 
@@ -325,6 +371,7 @@ selftest = [
     M("query-unquoted", "parser.py", "        query.decode(\"latin-1\"),", "        unquote_bytes_to_wsgi(query),", "R7"),
     M("method-from-elsewhere", "task.py", "            \"REQUEST_METHOD\": request.command.upper(),", "            \"REQUEST_METHOD\": request.headers.get(\"X_HTTP_METHOD_OVERRIDE\", request.command).upper(),", "R8"),
     M("underscore-kept", "parser.py", "            if b\"_\" in key:\n                # TODO(xistence): Should we drop this request instead?\n\n                continue\n", "", "R1"),
+    M("prefix-not-on-boundary", "task.py", "                if path.startswith(url_prefix_with_trailing_slash):", "                if path.startswith(url_prefix):", "R9"),
     T("guard-in", "task.py", "            if mykey not in environ:\n                environ[mykey] = value", "            if mykey in environ:\n                continue\n            environ[mykey] = value"),
     T("len-builtin", "parser.py", "str(br.__len__())", "str(len(br))"),
 ]
